@@ -64,9 +64,18 @@ try:
     r = run([PY, demo], env=env, cwd=scratch, timeout=300)
     meta["demo_clean_exit"] = r.returncode
     r = run(["git", "-C", wt, "apply", patch])
+    rebased = None
     if r.returncode != 0:
-        meta["error"] = "patch does not apply: " + r.stderr[-300:]
-        raise SystemExit(3)
+        # the tree moved on since the sub-agent wrote the patch: 3-way
+        r = run(["git", "-C", wt, "apply", "-3", patch])
+        if r.returncode != 0:
+            meta["error"] = "patch does not apply: " + r.stderr[-300:]
+            print(meta["error"])
+            raise SystemExit(3)
+        run(["git", "-C", wt, "reset", "-q"])
+        rebased = subprocess.check_output(["git", "-C", wt, "diff"],
+                                          text=True)
+        meta["patch_rebased_onto"] = meta["repo_head"]
     r = run([PY, "-m", "pytest", "-q", "-p", "no:cacheprovider",
              "src/ZConfig"], env=env, cwd=wt, timeout=900)
     tail = (r.stdout.strip().splitlines() or [""])[-1]
@@ -101,7 +110,11 @@ finally:
 
 out = os.path.join("/verif", "seeded", name)
 os.makedirs(out, exist_ok=True)
-shutil.copy(patch, os.path.join(out, "patch.diff"))
+if rebased:
+    with open(os.path.join(out, "patch.diff"), "w") as f:
+        f.write(rebased)
+else:
+    shutil.copy(patch, os.path.join(out, "patch.diff"))
 shutil.copy(demo, os.path.join(out, "demo.py"))
 rd = os.path.join(d, "README.md")
 if os.path.exists(rd):
